@@ -418,6 +418,43 @@ func init() {
 							c.Violation("C20:RotateBetweenVector:does-not-carry-first-direction-onto-second", d)
 						}
 					}},
+				{Name: "rotation-extreme-lengths", Serial: true, Bounds: engine.Bounds{InputDev: -1},
+					Rule: "RotateBetweenVector for 7 x 7 directions (axes, diagonals, exact opposites included) with each vector scaled by {1, 1e-150, 1e-80, 1e80, 1e150}: the result is a unit quaternion (1e-9) carrying the first direction onto the second (1e-9) — squares and products of the lengths leave the float64 range, the lengths themselves do not; non-trivial = distinct cases with a scale other than 1",
+					Body: func(c *engine.Ctx) {
+						dirs := []spatial.Vector3{{X: 1}, {Y: -1}, {Z: 2}, {X: 1, Y: 1}, {X: -1, Y: 2, Z: 0.5}, {X: 3, Y: -4, Z: 12}, {X: -1, Y: -1, Z: -1}}
+						scales := []float64{1, 1e-150, 1e-80, 1e80, 1e150}
+						a := dirs[c.In("a", len(dirs))]
+						b := dirs[c.In("b", len(dirs))]
+						sa := scales[c.In("sa", len(scales))]
+						sb := scales[c.In("sb", len(scales))]
+						if c.In("opposite", 2) == 1 {
+							b = a.Scale(-1)
+						}
+						A, B := a.Scale(sa), b.Scale(sb)
+						q := spatial.RotateBetweenVector(A, B)
+						c.Observe("%v %v -> %v", A, B, q)
+						if sa != 1 || sb != 1 {
+							c.Nontrivial(fmt.Sprint(A, B))
+						}
+						n := math.Sqrt(q.W*q.W + q.X*q.X + q.Y*q.Y + q.Z*q.Z)
+						// rotate the unit direction of a (computed here from the unscaled vector) by q
+						an := math.Sqrt(a.X*a.X + a.Y*a.Y + a.Z*a.Z)
+						bn := math.Sqrt(b.X*b.X + b.Y*b.Y + b.Z*b.Z)
+						u := spatial.Vector3{X: a.X / an, Y: a.Y / an, Z: a.Z / an}
+						w := spatial.Vector3{X: b.X / bn, Y: b.Y / bn, Z: b.Z / bn}
+						tx := 2 * (q.Y*u.Z - q.Z*u.Y)
+						ty := 2 * (q.Z*u.X - q.X*u.Z)
+						tz := 2 * (q.X*u.Y - q.Y*u.X)
+						r := spatial.Vector3{X: u.X + q.W*tx + (q.Y*tz - q.Z*ty), Y: u.Y + q.W*ty + (q.Z*tx - q.X*tz), Z: u.Z + q.W*tz + (q.X*ty - q.Y*tx)}
+						dist := math.Sqrt((r.X-w.X)*(r.X-w.X) + (r.Y-w.Y)*(r.Y-w.Y) + (r.Z-w.Z)*(r.Z-w.Z))
+						c.Outcome(fmt.Sprint(math.Abs(n-1) < 1e-9, dist < 1e-9))
+						d := map[string]any{"start": fmt.Sprint(A), "end": fmt.Sprint(B), "quaternion": fmt.Sprint(q), "norm": n, "distance_of_rotated_start_from_end_direction": dist}
+						if !(math.Abs(n-1) < 1e-9) {
+							c.Violation("C20:RotateBetweenVector:not-a-unit-quaternion[extreme-lengths]", d)
+						} else if !(dist < 1e-9) {
+							c.Violation("C20:RotateBetweenVector:does-not-carry-start-onto-end[extreme-lengths]", d)
+						}
+					}},
 				{Name: "matrices", Serial: true, Bounds: engine.Bounds{InputDev: -1},
 					Rule: "matrices built from 3 generators (rotation-like, shear, scale with entries from the component alphabet) x vectors: (AB)C = A(BC), (AB)v = A(Bv) to 1e-12 relative, unit matrix neutral; non-trivial = distinct triples of pairwise different generators",
 					Body: func(c *engine.Ctx) {
